@@ -33,3 +33,5 @@ finally:
     shutil.rmtree(os.path.join(ROOT, "replay"), ignore_errors=True)
 meta["caught_by"] = [p for p, c in meta["checks"].items() if c["exit"] == 1]
 json.dump(meta, open(os.path.join(d, "meta.json"), "w"), indent=1)
+# the runs above rewrote evidence/<pid>.json from the PATCHED tree: restore the committed files
+sh("git -C /verif checkout -- " + " ".join(f"evidence/{p}.json" for p in pids))
